@@ -37,6 +37,12 @@ def decide(fn, pre, good, *, inst, harness, replay, regions=(), twin=None, max_d
     if setup:
         setup()
     paths = eng.explore(fn, pre)
+    if any(p.kind == "timeout" for p in paths):
+        # a loaded machine can make the per-path watchdog fire on an ordinary path: explore once more with a generous limit
+        eng = Engine(max_decisions=max_decisions, max_paths=max_paths, path_timeout=path_timeout * 8)
+        if setup:
+            setup()
+        paths = eng.explore(fn, pre)
     res = dict(paths=len(paths), cut=0, timeouts=0, queries=0, unsat=0, sat=0, undecided=0, violations=[],
                known=[], errors=[], nontrivial=False, sat_replayed=0)
     known_seen = set()
